@@ -7,6 +7,7 @@ Require Import Avro.Model.Base Avro.Model.Prim Avro.Model.Schema Avro.Model.GoTy
 Require Import Avro.Proofs.Wire Avro.Proofs.BuildP Avro.Proofs.ReadP Avro.Proofs.WriteP Avro.Proofs.SpecP
                Avro.Proofs.RoundTrip Avro.Proofs.FloatConv.
 Require Import Avro.Model.Container Avro.Model.Writer Avro.Proofs.ContainerP Avro.Proofs.FileP Avro.Proofs.EndToEnd.
+Require Import Avro.Proofs.TimeP Avro.Proofs.CanonP.
 Import ListNotations.
 Open Scope Z_scope.
 
@@ -76,6 +77,46 @@ Theorem C01_record_value : forall reg s t om c, build reg s t om = Some c ->
 Proof. exact written_decodes. Qed.
 Print Assumptions C01_record_value.
 
+(* "Decoding returns the original value".  [canon c dest v] (Proofs/CanonP.v)
+   says, codec by codec, that v is in the form a decode into destination dest
+   produces: integers fit their Go width, a float32 widened into a double field
+   is not a NaN, maps are non-nil, whatever the codec omits equals the
+   destination's own value, null.* wrappers are valid, times are within what the
+   text / unit carries (years 0000..9999 and whole-minute zones for strings;
+   whole units, UTC, for longs; midnights for dates), struct fields the schema
+   does not cover equal the destination's.  For such v reading back what Write
+   produced yields v itself, and the input is consumed exactly. *)
+Theorem C01_returns_original_value : forall reg s t om c v d bs fuel rest dest,
+  build reg s t om = Some c -> datum_of c s v = Some d -> phys_ok s d ->
+  c_write c v = Some bs -> (3 * dmax d + 1 <= fuel)%nat ->
+  canon c dest v ->
+  c_read fuel c dest (bs ++ rest) = Done v rest.
+Proof.
+  intros reg s t om c v d bs fuel rest dest Hb Hd Hp Hw Hf Hc.
+  exact (proj1 (write_then_read _ _ _ _ _ _ _ _ fuel rest dest v Hb Hd Hp Hw Hf (roundtrip_identity c s dest v d Hc Hd))).
+Qed.
+Print Assumptions C01_returns_original_value.
+
+(* and outside [canon], the documented normalisations: a nil map reads back
+   empty; an omitted value reads back as the destination's own (zero) value; a
+   time under a long schema is floored to the unit, in UTC; a NaN stays a NaN *)
+Theorem C01_normalisations :
+  (forall vc vz om vsch dest, dest = VMapNil \/ dest = VMap [] ->
+     exists d, datum_of (CMap vc vz om) (SMap vsch) VMapNil = Some d /\
+               apply_datum (CMap vc vz om) dest d = Some (VMap [])) /\
+  (forall c nn x1 x2 dest v, c_omit c v = true ->
+     exists d, datum_of (CUnionOne c nn) (SUnion [x1; x2]) v = Some d /\
+               apply_datum (CUnionOne c nn) dest d = Some dest) /\
+  (forall mult t s d, unit_ok mult -> tv_wf t -> int64_ok (instant_ns t / mult) ->
+     datum_of (CTimeLong mult) s (VTime t) = Some d ->
+     exists t', forall dest, apply_datum (CTimeLong mult) dest d = Some (VTime t') /\
+                             t' = time_of_units mult (instant_ns t / mult)) /\
+  (forall om x d dest, 0 <= x < 4294967296 -> f32_is_nan x = true ->
+     datum_of (CF32Double om) SDouble (VF32 x) = Some d ->
+     exists y, apply_datum (CF32Double om) dest d = Some (VF32 y) /\ f32_is_nan y = true).
+Proof. exact (conj norm_nil_map (conj norm_omitted (conj norm_time_long norm_nan))). Qed.
+Print Assumptions C01_normalisations.
+
 Example C01_ex :
   let t := TStruct [] [] [GF [65] true [97] [] (TPtr TString);
                           GF [66] true [98;44;111;109;105;116;101;109;112;116;121] [] (TInt I64);
@@ -87,3 +128,22 @@ Example C01_ex :
     c_read 20 c (zero_of t) (bs ++ [9]) =
       Done (VStruct [VPtr (Some (VStr [104; 105])); VInt 0; VSlice [VMap [([120], VInt (-7))]; VMap []]]) [9].
 Proof. cbv zeta. eexists. eexists. eexists. repeat split; vm_compute; reflexivity. Qed.
+
+(* non-vacuity of [canon]: a record with a non-nil pointer, an omitted int, a
+   slice of maps and a nil pointer under a nullable union is canonical for the
+   codec built for it, against the zero destination *)
+Example C01_canon_ex :
+  let t := TStruct [] [] [GF [65] true [97] [] (TPtr TString);
+                          GF [66] true [98;44;111;109;105;116;101;109;112;116;121] [] (TInt I64);
+                          GF [68] true [100] [] (TSlice (TMap TString (TInt I16)));
+                          GF [69] true [101] [] (TPtr (TInt I32))] in
+  let s := SRecord [([97], SUnion [SNull; SString]); ([98], SUnion [SNull; SLong LtNone]);
+                    ([100], SArray (SMap (SLong LtNone))); ([101], SUnion [SNull; SLong LtNone])] in
+  let v := VStruct [VPtr (Some (VStr [104; 105])); VInt 0; VSlice [VMap [([120], VInt (-7))]; VMap []]; VPtr None] in
+  exists c, build reg_std s (Some t) false = Some c /\ canon c (zero_of t) v.
+Proof.
+  cbv zeta. eexists. split; [vm_compute; reflexivity|].
+  apply canon_record_iff. cbn. repeat split; auto.
+  all: try (repeat constructor; cbn; intuition congruence).
+  all: try (intros k Hk; destruct k as [|[|[|[|k]]]]; try (exfalso; apply Hk; cbn; tauto); reflexivity).
+Qed.
